@@ -52,6 +52,10 @@ def run(ctx):
             ctx.check(bool(rets) and not loose, "C07.OK", u.where, "every Ready(Ok) return carries a polled child's payload", site=u.body.span)
             rule_slot(ctx, M, u)
             rule_all(ctx, M, u)
+            with ctx.renamed({"C03.GUARD": "C07.SLOT", "C03.MARK": "C07.SLOT", "C03.LATCH": "C07.OK"}):
+                c03.rule_guard(ctx, u)
+                c03.rule_mark(ctx, u)
+                c03.rule_latch(ctx, u)
             if u.container == "array":
                 joinlike.rule_zero(ctx, M, u, "C07.ZERO", ("Ready(Err)",))
         if cfg != "core":
